@@ -3707,6 +3707,10 @@ impl Zeroconf {
             // will be no-op as the cache has been updated.
             let next_time = current_time_millis() + RESOLVE_WAIT_IN_MILLIS;
             self.add_retransmission(next_time, Command::Resolve(instance, try_count + 1));
+        } else {
+            // The follow-up queries for this instance are over: allow a new round if it
+            // shows up again unresolved.
+            self.pending_resolves.remove(&instance);
         }
     }
 
